@@ -325,7 +325,7 @@ pub fn run(ctx: &mut Ctx) -> Result<(), Violation> {
         ctx.stage("all-state-pairs-x-all-ops-b3", true, r)?;
     }
 
-    let cases = ctx.tier.pick(40_000, 4_000_000);
+    let cases = ctx.tier.cases(40_000, 4_000_000);
     let r = par_random(ctx, "random", cases, 130, |tape, st| {
         let mut t = Tape::new(tape);
         let bits = 1 + t.choose(3);
@@ -357,7 +357,7 @@ pub fn run(ctx: &mut Ctx) -> Result<(), Violation> {
     ctx.stage("random-histories-3-sets", false, r)?;
 
     // element widths up to the machine word
-    let cases = ctx.tier.pick(1_500, 300_000);
+    let cases = ctx.tier.cases(1_500, 300_000);
     let r = par_random(ctx, "random-wide", cases, 260, |tape, st| {
         let mut t = Tape::new(tape);
         let bits = [4usize, 8, 9, 16, 17, 31, 32, 33, 48, 63, 64][t.choose(11)];
